@@ -12,6 +12,7 @@ import common
 def main():
     path = sys.argv[1]
     sys.argv = [path] + sys.argv[2:]
+    sys.path.insert(0, os.path.dirname(os.path.abspath(path)))   # as when run as a script
     try:
         runpy.run_path(path, run_name='__main__')
     except SystemExit:
